@@ -149,6 +149,7 @@ def check(ctx):
     ctx.rule("R1", "every while loop reachable from Execer.parse has a recognised variant (budget / monotone index / stream consumer), and no for loop there grows the collection it iterates", floor=9)
     ctx.rule("R2", "the self-recursion of _parse_ctx_free is bounded: entered only when logical_input is false, and it passes logical_input=True", floor=2)
     ctx.rule("R3", "the recovery loop raises only the parser's own SyntaxError/IndentationError (no internal exception type is raised explicitly)", floor=5)
+    ctx.rule("R6", "line tables indexed by the parser's line numbers are split the way the parser counts lines (\\n only)", floor=2)
     ctx.rule("R5", "every verdict of the open-triple-quote scanner comes out of its quote- and comment-aware scan (or is 'nothing open' when no marker occurs at all); the line joiners ask only the scanner", floor=4)
     ctx.rule("R4", "the line returned by tools.subproc_toks is built only from slices of the source line and the literals '![' and ']'", floor=3)
 
@@ -431,6 +432,39 @@ def check(ctx):
         if any(call_name(c) == "_have_open_triple_quotes" for c in calls_in(fn)):
             bad = [c for c in calls_in(fn) if isinstance(c.func, ast.Attribute) and c.func.attr == "count" and c.args and isinstance(const_value(c.args[0]), str) and const_value(c.args[0]) in ('"""', "'''")]
             ctx.ob("R5", f"{TL}:{q}", "the joiner decides 'inside a triple-quoted string' through the scanner only (no private marker counting)", not bad, key=f"{q}|private-marker-count", where=loc(bad[0]) if bad else loc(fn))
+
+
+    # ------------------------------------------------------------------ R6
+    # the recovery loop and the context-aware pass find "the line of this node / of this error" by indexing a table
+    # of source lines with the parser's line number.  The parser counts lines at "\n" only; str.splitlines() also
+    # breaks at form feed (^L, a legal page separator in Python source), \v, \x1c-\x1e, \x85, U+2028/9.  With such a
+    # character on an earlier line the table is shifted and a later bare command is looked up on the wrong line: it is
+    # never wrapped and runs as Python.
+    n_tab = 0
+    for rel in (EX, AS):
+        m_ = ctx.repo.module(rel)
+        for q_, fn_ in m_.functions():
+            for c in calls_in(fn_):
+                if call_name(c) != "get_logical_line" or not c.args:
+                    continue
+                tab = c.args[0]
+                ttxt = unparse(tab)
+                # definitions of the table: local assignments, or assignments to the attribute anywhere in the module
+                values = []
+                if isinstance(tab, ast.Name):
+                    values = [d.value for d in df.all_defs(fn_).get(tab.id, []) if d.value is not None and d.kind == "assign"]
+                else:
+                    for n_ in ast.walk(m_.tree):
+                        if isinstance(n_, ast.Assign) and any(unparse(t) == ttxt for t in n_.targets) and not (isinstance(n_.value, ast.Constant) and n_.value.value is None):
+                            values.append(n_.value)
+                if not values:
+                    raise AnalysisError(f"{rel}:{q_}: cannot find how the line table `{ttxt}` is built")
+                for v in values:
+                    n_tab += 1
+                    uses_splitlines = any(isinstance(x, ast.Call) and last_attr(x) == "splitlines" for x in ast.walk(v))
+                    ctx.ob("R6", f"{rel}:{q_}", f"the line table `{ttxt}` = `{short(v, 50)}` (indexed by the parser's line numbers, which count \\n only) is not built with str.splitlines()", not uses_splitlines, key=f"{q_}|line-table-splitlines", where=loc(v))
+    if n_tab < 2:
+        raise AnalysisError(f"only {n_tab} line tables found on the detection path (2 confirmed by hand)")
 
 
 META = {
